@@ -247,6 +247,8 @@ pub struct BinPlan {
     pub nat_complete_u8: bool,
     pub nat_complete_u16: bool,
     pub nat_full_b: usize,
+    /// word-lattice partitions (every word of the left operand in {0,1,MAX,MAX-1,top,~top})
+    pub wordlat: bool,
 }
 
 pub fn run_bin_plan(cfg: &Cfg, plan: &BinPlan) -> (Part, Value, bool) {
@@ -310,6 +312,46 @@ pub fn run_bin_plan(cfg: &Cfg, plan: &BinPlan) -> (Part, Value, bool) {
             make_jobs(&mut jobs, &format!("LAT {}x{}", lk.name(), rk.name()), &l, &r, &plan.ops, &plan.forms, plan.div_rem, 16);
         }
     }
+    // --- word lattice: every word of the left operand takes each boundary word value ---
+    if plan.wordlat {
+        for &lk in ALL_KINDS {
+            let w = lk.word();
+            let top = lk.cap().unwrap_or(4 * w);
+            let mut lvals: Vec<Vo> = Vec::new();
+            for l in [top, top - 1, top - w + 1] {
+                for m in enumr::wordlat(l, w, true) {
+                    lvals.extend(roots_of(&mut part, &seen, lk, &m, PROVS_PLAIN));
+                }
+            }
+            let l = Arc::new(lvals);
+            // right operands: same kind (three values per word), a one-word vector of the same word
+            // size, a wider-word and a narrower-word kind, Bvd
+            let mut rks: Vec<K> = vec![lk, K::D];
+            for cand in [K::F8x1, K::F16x1, K::F32x1, K::F64x1, K::F128x1, K::FUx1] {
+                if cand.word() == w && cand != lk {
+                    rks.push(cand);
+                }
+            }
+            rks.push(if w >= 64 { K::F8x3 } else { K::F64x2 });
+            for rk in rks {
+                let rw = rk.word();
+                let rtop = rk.cap().unwrap_or(top).min(top + rw);
+                let mut rvals: Vec<Vo> = Vec::new();
+                for rl in [rtop, rtop.saturating_sub(1), rw.min(rtop)] {
+                    for m in enumr::wordlat(rl, rw, false) {
+                        rvals.extend(roots_of(&mut part, &seen, rk, &m, PROVS_PLAIN));
+                    }
+                }
+                let r = Arc::new(to_opds(&rvals));
+                make_jobs(&mut jobs, &format!("WORDLAT {}x{}", lk.name(), rk.name()), &l, &r, &plan.ops, &plan.forms, plan.div_rem, 64);
+            }
+            // natives: word-lattice left operands against the native lattice of two types
+            for ty in [NatTy::U8, NatTy::U64, NatTy::U128] {
+                let r = Arc::new(nat_dom(ty, false, false));
+                make_jobs(&mut jobs, &format!("WORDLAT {}x{}", lk.name(), ty.name()), &l, &r, &plan.ops, &[plan.forms[0]], false, 64);
+            }
+        }
+    }
     // --- native right-hand sides ---
     for &lk in ALL_KINDS {
         let mut l: Vec<Vo> = (*get_lat(&mut part, lk, true)).clone();
@@ -353,6 +395,7 @@ pub fn run_bin_plan(cfg: &Cfg, plan: &BinPlan) -> (Part, Value, bool) {
         "lattice": {"lhs": plan.lat_lhs.iter().map(|k| k.name()).collect::<Vec<_>>(), "rhs": plan.lat_rhs_classes.iter().map(|k| k.name()).collect::<Vec<_>>(),
                     "same_kind_rhs": plan.lat_same_kind, "max_runs_lhs": plan.lat_runs, "short_length_set": plan.lat_short},
         "native_rhs": {"types": ALL_NAT.iter().map(|t| t.name()).collect::<Vec<_>>(), "u8_complete": plan.nat_complete_u8, "u16_complete_for_u8_word_lhs": plan.nat_complete_u16},
+        "word_lattice": if plan.wordlat { "left operand at lengths C, C-1, C-W+1 (4W for Bvd/Bv): every word in {0,1,MAX,MAX-1,top bit,all but top}; right operands: same kind, one-word same-size kind, a wider/narrower-word kind, Bvd with every word in {0,1,MAX}; natives u8,u64,u128" } else { "not in this plan" },
         "partitions": njobs,
     });
     (part, bounds, true)
